@@ -167,6 +167,9 @@ pub enum ResumeMode {
     Zero,
     /// arbitrary triple (mantissas), kept inside the rate domain
     Raw(u32, u32, u32),
+    /// one of the three totals replaced, the other two re-supplied unchanged: 0 => reward total := k,
+    /// 1 => staked total + k, 2 => LST total + k (kept inside the rate domain)
+    One(u8, u32),
 }
 
 #[derive(Clone, Debug, PartialEq, Serialize, Deserialize)]
@@ -212,6 +215,9 @@ pub enum TimeSel {
     OwnerDue(u8),
     /// far in the future (all deadlines passed)
     Far,
+    /// set the sub-second part of the block time (nanoseconds; the clock only moves forward, so a
+    /// smaller value lands in the next second): block times are not whole seconds on a real chain
+    Phase(u32),
 }
 
 #[derive(Clone, Debug, PartialEq, Serialize, Deserialize)]
@@ -261,6 +267,10 @@ pub enum Op {
     Burst(u8),
     /// n rounds of (unstake a little, submit the batch at its deadline): many batches in one history
     Churn(u8),
+    /// an outage: the breaker is tripped (by the admin, or monitor k-1), the listed IBC outcomes arrive while the
+    /// contract is halted, a few value-moving calls are attempted (they must fail), and the admin resumes with
+    /// unchanged totals
+    Outage { by: u8, events: Vec<(u8, Outcome)>, attempts: u8 },
     Traffic(u8),
     OracleToggle,
     Query(QuerySel),
@@ -287,6 +297,7 @@ impl Op {
             Op::Advance(_) => "Advance",
             Op::Burst(_) => "Burst",
             Op::Churn(_) => "Churn",
+            Op::Outage { .. } => "Outage",
             Op::Traffic(_) => "Traffic",
             Op::OracleToggle => "OracleToggle",
             Op::Query(_) => "Query",
@@ -326,6 +337,7 @@ pub struct Profile {
     pub w_traffic: u32,
     pub w_burst: u32,
     pub w_churn: u32,
+    pub w_outage: u32,
     pub w_oracle_toggle: u32,
     pub w_query: u32,
     /// probability weights inside ops
@@ -369,6 +381,7 @@ impl Profile {
             w_traffic: 2,
             w_burst: 0,
             w_churn: 0,
+            w_outage: 1,
             w_oracle_toggle: 0,
             w_query: 1,
             hostile_callers: false,
@@ -444,6 +457,7 @@ fn time_sel(p: &Profile) -> BoxedStrategy<TimeSel> {
         5 => (0u8..8, 0u8..3).prop_map(|(b, d)| TimeSel::UnbondDue(b, d)),
         w_owner => (0u8..3).prop_map(TimeSel::OwnerDue),
         1 => Just(TimeSel::Far),
+        w_owner.min(4) => prop_oneof![Just(1u32), Just(999_999_999u32), 0u32..1_000_000_000].prop_map(TimeSel::Phase),
     ]
     .boxed()
 }
@@ -537,6 +551,7 @@ pub fn op_strategy(p: &Profile) -> BoxedStrategy<Op> {
         1 => Just(ResumeMode::Zero),
         2 => (1u32..100000, 1u32..100000, 0u32..100000).prop_map(|(a, b, c)| ResumeMode::Raw(a, b, c)),
         2 => Just(if sweep { ResumeMode::ZeroLst } else { ResumeMode::Same }),
+        3 => (0u8..3, prop_oneof![Just(0u32), Just(1u32), 0u32..1_000_000]).prop_map(|(w, k)| ResumeMode::One(w, k)),
     ];
     let resume = (privileged(p), resmode).prop_map(|(user, mode)| Op::Resume { user, mode });
     let huge = p.huge_fees;
@@ -600,6 +615,7 @@ pub fn op_strategy(p: &Profile) -> BoxedStrategy<Op> {
         (p.w_traffic, traffic.boxed()),
         (p.w_burst, (4u8..16).prop_map(Op::Burst).boxed()),
         (p.w_churn, (8u8..40).prop_map(Op::Churn).boxed()),
+        (p.w_outage, (0u8..3, proptest::collection::vec((0u8..16, outcome()), 0..5), 0u8..4).prop_map(|(by, events, attempts)| Op::Outage { by, events, attempts }).boxed()),
         (p.w_oracle_toggle, Just(Op::OracleToggle).boxed()),
         (p.w_query, query.boxed()),
     ];
